@@ -255,7 +255,7 @@ func (t *Term) Write(p []byte) (int, error) {
 			params := string(p[i+2 : j])
 			final := p[j]
 			switch final {
-			case 'A':
+			case 'A', 'F': // CUU; CPL = CUU + carriage return
 				k := 1
 				if params != "" {
 					k = 0
@@ -281,6 +281,24 @@ func (t *Term) Write(p []byte) (int, error) {
 				t.r -= k
 				if t.r < 0 {
 					t.r = 0
+				}
+				if final == 'F' {
+					t.c = 0
+				}
+			case 'K': // EL
+				from, to := t.c, t.Cols
+				switch params {
+				case "", "0":
+				case "1":
+					from, to = 0, t.c+1
+				case "2":
+					from = 0
+				default:
+					t.Unknown = append(t.Unknown, "CSI "+params+"K")
+					from = to
+				}
+				for j := from; j < to && j < t.Cols; j++ {
+					t.scr[t.r][j] = cell{}
 				}
 			case 'J':
 				if params == "" || params == "0" {
